@@ -221,7 +221,8 @@ func (b *MirroredBuffer) Commit(n int) int {
 		n = free
 	}
 	b.used += n
-	b.tail = (b.tail + n) & b.sizeMask
+	// The size is a multiple of the page size, not necessarily a power of two: wrap with the size itself, not a mask.
+	b.tail = (b.tail + n) % b.size
 	return n
 }
 
@@ -233,7 +234,7 @@ func (b *MirroredBuffer) Consume(n int) int {
 		return 0
 	}
 	b.used -= n
-	b.head = (b.head + n) & b.sizeMask
+	b.head = (b.head + n) % b.size
 	return n
 }
 
